@@ -435,13 +435,68 @@ Qed.
 Lemma drv_s e c op k id : c_s (fst (drv e c op k id)) = c_s c.
 Proof. destruct (drv e c op k id) as [c' ok] eqn:E. apply drv_spec in E. cbn [fst]. apply E. Qed.
 
-Theorem create_urr_restarts e o c i :
+(* the session context create_urr leaves: the bookkeeping after the driver call, and whether the call succeeded *)
+Lemma create_urr_unfold e o c i :
   uo_id o = Some i ->
+  let old := held_urr (c_s c) i in
+  let info := mkUrr false (match old with Some u => ui_seqn u | None => 0 end)
+                    (bit 0 (uo_method o)) (bit 1 (uo_method o)) (bit 2 (uo_method o))
+                    (bit 4 (uo_info o)) (pdr_refs (c_s c) i mod 65536) in
+  let c1 := upd_s c (fun s => set_urrs (aset i info (s_urrs s)) s) in
+  s_urrs (c_s (create_urr e o c)) =
+    if snd (drv e c1 DCreate KURR i) then aset i info (s_urrs (c_s c))
+    else match old with Some u => aset i u (aset i info (s_urrs (c_s c))) | None => aset i info (s_urrs (c_s c)) end.
+Proof.
+  intros Hi. cbn zeta. unfold create_urr. rewrite Hi.
+  match goal with |- context [drv e ?cx DCreate KURR i] => set (c1 := cx) end.
+  pose proof (drv_s e c1 DCreate KURR i) as Hs. destruct (drv e c1 DCreate KURR i) as [c2 ok]. cbn [fst snd] in *.
+  destruct ok; [rewrite Hs; reflexivity|].
+  destruct (held_urr (c_s c) i); cbn [upd_s c_s set_urrs s_urrs]; rewrite Hs; reflexivity.
+Qed.
+
+Lemma aset_restore {V} i (u v : V) l : alookup i l = Some u -> aset i u (aset i v l) = l.
+Proof.
+  induction l as [|[k x] r IH]; cbn [alookup aset]; [discriminate|].
+  destruct (N.eqb i k) eqn:E.
+  - intros H. inversion H; subst. apply N.eqb_eq in E. subst. cbn [aset]. rewrite N.eqb_refl. reflexivity.
+  - intros H. cbn [aset]. rewrite E. rewrite IH by exact H. reflexivity.
+Qed.
+
+(* a Create URR for an id the session does not hold (never created, or removed): the counter starts at 0 *)
+Theorem create_urr_restarts e o c i :
+  uo_id o = Some i -> held_urr (c_s c) i = None ->
   exists inf, alookup i (s_urrs (c_s (create_urr e o c))) = Some inf /\ ui_seqn inf = 0 /\ ui_removed inf = false /\
               ui_durat inf = bit 0 (uo_method o) /\ ui_volum inf = bit 1 (uo_method o) /\ ui_mnop inf = bit 4 (uo_info o).
 Proof.
-  intros Hi. unfold create_urr. rewrite Hi. rewrite drv_s. cbn [upd_s c_s set_urrs s_urrs].
-  eexists. split; [apply alookup_aset_same|]. cbn. repeat split.
+  intros Hi Hh. rewrite (create_urr_unfold e o c i Hi). cbn zeta. rewrite Hh.
+  destruct (snd _); eexists; (split; [apply alookup_aset_same|]); cbn; repeat split.
+Qed.
+
+(* a Create URR for an id the session still holds: the running URR keeps its counter; if the data plane rejects the
+   duplicate, the URR bookkeeping is exactly what it was *)
+Theorem create_urr_held_keeps_counter e o c i u :
+  uo_id o = Some i -> held_urr (c_s c) i = Some u ->
+  exists inf, alookup i (s_urrs (c_s (create_urr e o c))) = Some inf /\ ui_seqn inf = ui_seqn u /\ ui_removed inf = false.
+Proof.
+  intros Hi Hh. rewrite (create_urr_unfold e o c i Hi). cbn zeta. rewrite Hh.
+  destruct (held_urr_spec _ _ _ Hh) as [_ Hr].
+  destruct (snd _); eexists; (split; [apply alookup_aset_same|]); cbn; auto.
+Qed.
+
+Theorem create_urr_held_rejected_unchanged e o c i u :
+  uo_id o = Some i -> held_urr (c_s c) i = Some u ->
+  In (s_lid (c_s c), KURR, i) (c_dp c) ->           (* the data plane has the URR: NLM_F_EXCL makes it reject the create *)
+  s_urrs (c_s (create_urr e o c)) = s_urrs (c_s c).
+Proof.
+  intros Hi Hh Hin. rewrite (create_urr_unfold e o c i Hi). cbn zeta. rewrite Hh.
+  destruct (held_urr_spec _ _ _ Hh) as [Hl _].
+  match goal with |- context [drv e ?cx DCreate KURR i] => set (c1 := cx) end.
+  assert (Hok : snd (drv e c1 DCreate KURR i) = false).
+  { unfold drv. cbn [c1 upd_s c_s c_dp set_urrs s_lid]. unfold dp_call.
+    assert (Hp : dp_has (c_dp c) (s_lid (c_s c), KURR, i) = true) by (apply dp_has_In; exact Hin).
+    change (s_lid (set_urrs _ (c_s c))) with (s_lid (c_s c)). rewrite Hp. cbn [negb]. rewrite andb_false_r.
+    destruct (fails e DCreate KURR i); reflexivity. }
+  rewrite Hok. apply aset_restore. exact Hl.
 Qed.
 
 (* ---------------------------------------------------------------- C11 (e), C13 (c): what the per-session operations keep *)
@@ -517,11 +572,32 @@ Qed.
 
 Lemma create_urr_kept e o c : ukept (fun u => uo_id o = Some u) c (create_urr e o c).
 Proof.
-  unfold create_urr. destruct (uo_id o) as [i|] eqn:Hi; [|apply ukept_refl]. unfold ukept. rewrite drv_s.
-  cbn [upd_s c_s]. split; [reflexivity|]. cbn [set_urrs s_urrs]. intros u inf' H.
-  destruct (N.eq_dec u i) as [->|Hne].
-  - rewrite alookup_aset_same in H. inversion H; subst. right. auto.
-  - rewrite alookup_aset_other in H by exact Hne. left. exists inf'. auto.
+  destruct (uo_id o) as [i|] eqn:Hi; [|unfold create_urr; rewrite Hi; apply ukept_refl].
+  unfold ukept, skept. split.
+  - unfold create_urr. rewrite Hi.
+    match goal with |- context [drv e ?cx DCreate KURR i] => pose proof (drv_s e cx DCreate KURR i) as Hs;
+      destruct (drv e cx DCreate KURR i) as [c2 ok] end. cbn [fst] in Hs.
+    destruct ok; [rewrite Hs; reflexivity|]. destruct (held_urr (c_s c) i); cbn [upd_s c_s set_urrs s_q]; rewrite Hs; reflexivity.
+  - rewrite (create_urr_unfold e o c i Hi). cbn zeta. intros u inf' H.
+    assert (Hcases : forall l0, (l0 = aset i (mkUrr false (match held_urr (c_s c) i with Some x => ui_seqn x | None => 0 end)
+                                  (bit 0 (uo_method o)) (bit 1 (uo_method o)) (bit 2 (uo_method o)) (bit 4 (uo_info o))
+                                  (pdr_refs (c_s c) i mod 65536)) (s_urrs (c_s c))
+                          \/ exists x, held_urr (c_s c) i = Some x /\ l0 = s_urrs (c_s c)) ->
+             alookup u l0 = Some inf' ->
+             (exists inf, alookup u (s_urrs (c_s c)) = Some inf /\ ui_seqn inf' = ui_seqn inf) \/ (Some i = Some u /\ ui_seqn inf' = 0)).
+    { intros l0 [->|[x [Hx ->]]] Hl.
+      - destruct (N.eq_dec u i) as [->|Hne].
+        + rewrite alookup_aset_same in Hl. inversion Hl; subst. cbn [ui_seqn].
+          destruct (held_urr (c_s c) i) as [x|] eqn:Hh.
+          * left. destruct (held_urr_spec _ _ _ Hh) as [Hx _]. exists x. auto.
+          * right. auto.
+        + rewrite alookup_aset_other in Hl by exact Hne. left. exists inf'. auto.
+      - left. exists inf'. auto. }
+    destruct (snd _).
+    + apply (Hcases _ (or_introl eq_refl) H).
+    + destruct (held_urr (c_s c) i) as [x|] eqn:Hh.
+      * rewrite aset_restore in H by (apply (held_urr_spec _ _ _ Hh)). left. exists inf'. auto.
+      * apply (Hcases _ (or_introl eq_refl) H).
 Qed.
 
 Lemma update_urr_kept cr e o c : ukept cr c (fst (update_urr e o c)).
@@ -586,10 +662,35 @@ Proof.
   destruct IH as [Q K]. split; [exact Q | exact K].
 Qed.
 
+Lemma decr_ref_kept cr u s : skept cr s (set_urrs (decr_ref u (s_urrs s)) s).
+Proof.
+  unfold decr_ref. destruct (alookup u (s_urrs s)) as [inf|] eqn:E; [|apply skept_same; reflexivity].
+  destruct (0 <? ui_ref inf); [|apply skept_same; reflexivity].
+  apply (skept_aset cr _ _ inf); [exact E | reflexivity].
+Qed.
+
+Lemma decr_refs_kept cr us : forall s, skept cr s (set_urrs (fold_left (fun l u => decr_ref u l) us (s_urrs s)) s).
+Proof.
+  induction us as [|u us IH]; intros s; cbn [fold_left]; [apply skept_same; reflexivity|].
+  eapply skept_trans; [apply (decr_ref_kept cr u s)|].
+  specialize (IH (set_urrs (decr_ref u (s_urrs s)) s)). cbn [set_urrs s_urrs] in IH.
+  destruct IH as [Q K]. split; [exact Q | exact K].
+Qed.
+
 Lemma create_pdr_kept cr e o c : ukept cr c (create_pdr e o c).
 Proof.
-  unfold create_pdr, ukept. rewrite drv_s. cbn [upd_s c_s].
-  eapply skept_trans; [apply (incr_refs_kept cr (dedup (po_urrs o)))|]. apply skept_same; reflexivity.
+  unfold create_pdr. destruct (alookup (pdr_id o) (s_pdrs (c_s c))) as [old|].
+  - unfold create_pdr_held.
+    match goal with |- context [drv e ?cx DCreate KPDR (pdr_id o)] => pose proof (drv_s e cx DCreate KPDR (pdr_id o)) as Hs;
+      destruct (drv e cx DCreate KPDR (pdr_id o)) as [c3 ok] end. cbn [fst] in Hs.
+    destruct ok.
+    + unfold ukept. rewrite Hs. cbn [upd_s c_s].
+      eapply skept_trans; [apply (incr_refs_kept cr (filter (fun u => negb (memN u old)) (dedup (po_urrs o))))|].
+      eapply skept_trans; [apply (decr_refs_kept cr (filter (fun u => negb (memN u (dedup (po_urrs o)))) old))|].
+      apply skept_same; reflexivity.
+    + unfold ukept. cbn [upd_s c_s]. apply skept_same; cbn [set_pdrs set_urrs s_q s_urrs]; [rewrite Hs; reflexivity | reflexivity].
+  - unfold create_pdr_new, ukept. rewrite drv_s. cbn [upd_s c_s].
+    eapply skept_trans; [apply (incr_refs_kept cr (dedup (po_urrs o)))|]. apply skept_same; reflexivity.
 Qed.
 
 Lemma update_pdr_kept cr e o c : ukept cr c (fst (update_pdr e o c)).
